@@ -76,6 +76,35 @@ def ref_expand(g: Graph, inference: str) -> Graph:
     return g
 
 
+def both_contains_each(out, rng, n):
+    """"both" denotes the closure under the RDFS rules and the OWL-RL rules together, so what either single closure derives must be
+    derived under "both" as well (checked on the graph pySHACL leaves behind with inplace=True; blank-node-free triples only,
+    owlrl mints blank nodes for literals).  Independent of the combined semantics class the code (and ref_expand) use."""
+    import pyshacl
+    from pyshacl.inference import CustomRDFSSemantics
+    from rdflib import RDFS as _RDFS
+    sg = Graph()
+    sg.add((EX.AnyShape, RDF.type, SH.NodeShape))
+    for k in range(n):
+        ts = gen_ontology(rng) + shapegen.gen_data(rng, n=rng.choice((4, 8)))
+        ts += [(EX["c%d" % k], RDF.type, _RDFS.ContainerMembershipProperty), (EX.n0, EX["c%d" % k], EX.n1)]
+        base = graph_from_triples(ts)
+        work = graph_from_triples(ts)
+        try:
+            pyshacl.validate(work, shacl_graph=sg, inference="both", inplace=True)
+        except Exception:  # noqa
+            continue
+        out.evaluations += 1
+        for name, sem in (("rdfs", CustomRDFSSemantics), ("owlrl", owlrl.OWLRL_Semantics)):
+            single = graph_from_triples(ts)
+            owlrl.DeductiveClosure(sem).expand(single)
+            missing = [t for t in single if t not in work and not any(isinstance(x, BNode) for x in t)]
+            if missing:
+                out.b_fail.append({"signature": "C14:both-misses-%s-entailment" % name, "case": {"data_nt": base.serialize(format="nt")[:2000]},
+                                   "missing": [" ".join(x.n3() for x in t) for t in missing[:4]]})
+        out.count("both-contains-each")
+
+
 def gen_ontology(rng):
     ts = []
     cs = CLASSES + [EX.K1, EX.K2]
@@ -127,6 +156,7 @@ def results_key(code, sg):
 
 
 def run(ctx, out):
+    both_contains_each(out, random.Random(ctx.seed * 31 + 14), 6 if ctx.tier == "quick" else 60)
     from pyshacl.rdfutil import inoculate as real_inoculate
     rng = random.Random(ctx.seed * 217645177 + 14)
     quick = ctx.tier == "quick"
